@@ -74,6 +74,11 @@ def grammar(n, per, **kw):
     a.update(kw)
     return {'scen': 'grammar', 'args': a, 'n': n}
 
+P('C12', theorems=[],
+  owned={'av.urgency', 'http.urgency.av', 'dump.own.since', 'av.kind'},
+  oracles=[O.o_c12_urgency, O.o_c12_counter],
+  plan={'quick': [{'scen': 'urgency', 'args': {'shards': 8}, 'n': 8, 'shards': 8}, hist('c10', 60, 'mem:lib,sql:lib,sql:http')],
+        'thorough': [{'scen': 'urgency', 'args': {'shards': 16, 'dense': '1'}, 'n': 16, 'shards': 16}, hist('c10', 2000, 'mem:lib,sql:lib,sql:http')]})
 P('C14', owned={'http.status.av', 'http.status.gcv', 'http.status.as', 'http.status.gs', 'http.headers.av', 'http.headers.gcv', 'http.headers.as', 'http.headers.gs', 'http.urgency.av', 'http.ctype.gcv', 'http.ctype.gs', 'http.body.gcv', 'http.body.gs'},
   oracles=[O.o_c14_table],
   aligned=[('mem:http', 'mem:lib', 'C14: every HTTP response decodes to exactly the library outcome of the same request on a twin storage'),
